@@ -210,13 +210,26 @@ func (c *FnCtx) assertInvariants(tl *Loop, from *ssa.BasicBlock, ex *Exit, st *S
 		if !clauseActive(inv, c.prop) {
 			continue
 		}
-		f := c.trInvariant(tl, inv, st, sub, &ex.Items)
 		which := "entry"
 		if back {
 			which = "preserved@" + blockLabel(from)
 		}
-		stem := fmt.Sprintf("loop%d/inv#%d/%s", tl.Ord, inv.Ord, which)
-		c.assert(&ex.Items, "invariant", stem, "", f, nil, inv.Tags, false).Text = inv.Text
+		if inv.Auto != nil {
+			f := c.trInvariant(tl, inv, st, sub, &ex.Items)
+			stem := fmt.Sprintf("loop%d/inv#%d/%s", tl.Ord, inv.Ord, which)
+			c.assert(&ex.Items, "invariant", stem, "", f, nil, inv.Tags, len(inv.Tags) == 0).Text = inv.Text
+			continue
+		}
+		parts := c.V.DB.splitConj(inv.E, 0)
+		for pi, pe := range parts {
+			piece := &Clause{Kind: inv.Kind, Tags: inv.Tags, Text: inv.Text, E: pe, Loop: inv.Loop, Ord: inv.Ord}
+			f := c.trInvariant(tl, piece, st, sub, &ex.Items)
+			stem := fmt.Sprintf("loop%d/inv#%d/%s", tl.Ord, inv.Ord, which)
+			if len(parts) > 1 {
+				stem = fmt.Sprintf("loop%d/inv#%d.%d/%s", tl.Ord, inv.Ord, pi+1, which)
+			}
+			c.assert(&ex.Items, "invariant", stem, "", f, nil, inv.Tags, len(inv.Tags) == 0).Text = inv.Text
+		}
 	}
 	c.cur, c.curItems = save, saveItems
 }
@@ -319,6 +332,14 @@ func (c *FnCtx) instr(in ssa.Instruction, bv *BlockVC) {
 		l := c.ptrLoc(ref, pt, true)
 		c.storeLoc(st, l, Val{T: c.zeroOf(pt), S: c.sortOf(pt), GT: pt})
 		c.env[x] = &Bind{V: Val{T: ref, S: SInt, GT: x.Type()}}
+		c.checkAllocFieldInvs(x, ref)
+		for _, ni := range c.V.DB.NewInvs {
+			if tstr(pt) == ni.Type {
+				env := &SEnv{c: c, st: c.cur, old: c.entry, vars: map[string]Val{"v": {T: ref, S: SInt, GT: x.Type()}}, bound: map[string]bool{}}
+				c.assume(c.curItems, env.trAssume(ni.E))
+				c.note("zero value of " + ni.Type + ": " + ni.Text)
+			}
+		}
 	case *ssa.FieldAddr:
 		base := c.addrLoc(x.X, in)
 		c.env[x] = &Bind{IsLoc: true, L: c.locField(base, x.Field)}
@@ -329,7 +350,7 @@ func (c *FnCtx) instr(in ssa.Instruction, bv *BlockVC) {
 			s := c.val(x.X)
 			c.assert(c.curItems, "index", "index", exprText(x.X)+"["+exprText(x.Index)+"]", sAnd(sx("<=", "0", idx.T), sx("<", idx.T, sx("slen", s.T))), in, nil, true)
 			l := &Loc{Arr: c.backArr(t.Elem()), Ref: sx("sref", s.T), S: c.sortOf(types.NewArray(t.Elem(), 0)), GT: t.Elem(), Local: c.isLocal(x.X)}
-			c.env[x] = &Bind{IsLoc: true, L: c.locIndex(l, sx("+", sx("soff", s.T), idx.T), t.Elem())}
+			c.env[x] = &Bind{IsLoc: true, L: c.locIndex(l, c.ix(sx("soff", s.T), idx.T), t.Elem())}
 		case *types.Pointer:
 			at := t.Elem().Underlying().(*types.Array)
 			base := c.addrLoc(x.X, in)
@@ -346,6 +367,13 @@ func (c *FnCtx) instr(in ssa.Instruction, bv *BlockVC) {
 		l := c.addrLoc(x.Addr, in)
 		v := c.val(x.Val)
 		c.checkFieldInv(x, l, v)
+		if ia, ok := x.Addr.(*ssa.IndexAddr); ok {
+			if _, isSlice := ia.X.Type().Underlying().(*types.Slice); isSlice {
+				if _, isPtr := x.Val.Type().Underlying().(*types.Pointer); isPtr {
+					c.assert(c.curItems, "nilelem", "nilelem", exprText(x.Addr), sNot(sEq(v.T, "0")), in, nil, true)
+				}
+			}
+		}
 		c.storeLoc(st, l, v)
 	case *ssa.BinOp:
 		c.binop(x)
@@ -361,6 +389,11 @@ func (c *FnCtx) instr(in ssa.Instruction, bv *BlockVC) {
 		c.convert(x)
 	case *ssa.MakeInterface:
 		v := c.val(x.X)
+		if _, isPtr := x.X.Type().Underlying().(*types.Pointer); isPtr && !c.isLocal(x.X) {
+			if _, isConst := x.X.(*ssa.Const); !isConst || true {
+				c.assert(c.curItems, "typednil", "typednil", exprText(x.X)+" as "+tstr(x.Type()), sNot(sEq(v.T, "0")), in, nil, true)
+			}
+		}
 		c.bind(x, Val{T: c.boxIface(v, x.X.Type()), S: SIface, GT: x.Type()})
 	case *ssa.TypeAssert:
 		c.typeAssert(x)
@@ -379,6 +412,10 @@ func (c *FnCtx) instr(in ssa.Instruction, bv *BlockVC) {
 		case *types.Array:
 			c.assert(c.curItems, "index", "index", "", sAnd(sx("<=", "0", idx.T), sx("<", idx.T, sInt(t.Len()))), in, nil, true)
 			c.bind(x, Val{T: sSel(v.T, idx.T), S: c.sortOf(t.Elem()), GT: t.Elem()})
+		case *types.Basic:
+			sl := c.ufun("strlen", []Sort{SInt}, SInt)
+			c.assert(c.curItems, "index", "index", exprText(x.X)+"["+exprText(x.Index)+"]", sAnd(sx("<=", "0", idx.T), sx("<", idx.T, sx(sl, v.T))), in, nil, true)
+			c.bind(x, Val{T: sx(c.ufun("str_at", []Sort{SInt, SInt}, SInt), v.T, idx.T), S: SInt, GT: x.Type()})
 		default:
 			c.unsupp(in, "Index on "+tstr(x.X.Type()))
 			c.bind(x, c.havocVal("idx", x.Type(), st, c.curItems))
@@ -405,6 +442,9 @@ func (c *FnCtx) instr(in ssa.Instruction, bv *BlockVC) {
 		cp := c.val(x.Cap)
 		c.assert(c.curItems, "slice", "makeslice", "", sAnd(sx("<=", "0", ln.T), sx("<=", ln.T, cp.T)), in, nil, true)
 		et := x.Type().Underlying().(*types.Slice).Elem()
+		if _, isPtr := et.Underlying().(*types.Pointer); isPtr {
+			c.assert(c.curItems, "nilelem", "nilelem", "make([]"+tstr(et)+", n) with n>0", sEq(ln.T, "0"), in, nil, true)
+		}
 		a := c.backArr(et)
 		c.setArr(st, a, sStore(c.arrIn(st, a), ref, fmt.Sprintf("((as const %s) %s)", arrSort(SInt, c.sortOf(et)), c.zeroOf(et))))
 		c.bind(x, Val{T: sx("mk_slice", ref, "0", ln.T), S: SSlice, GT: x.Type()})
@@ -483,7 +523,25 @@ func (c *FnCtx) unop(x *ssa.UnOp) {
 		c.bind(x, v)
 		bv := c.env[x].V
 		c.assume(c.curItems, c.typeFacts(bv, st))
+		// a reference read from an object that existed at function entry, out of an array that has
+		// not been written since entry, existed at entry as well
+		if !l.Obj && c.arrIn(st, l.Arr) == l.Arr {
+			switch x.Type().Underlying().(type) {
+			case *types.Pointer, *types.Map:
+				c.assume(c.curItems, sImp(sx("<", l.Ref, c.entry.alloc), sx("<", bv.T, c.entry.alloc)))
+			case *types.Slice:
+				c.assume(c.curItems, sImp(sx("<", l.Ref, c.entry.alloc), sx("<", sx("sref", bv.T), c.entry.alloc)))
+			}
+		}
 		c.assumeFieldInv(x, l, bv)
+		if ia, ok := x.X.(*ssa.IndexAddr); ok {
+			if _, isSlice := ia.X.Type().Underlying().(*types.Slice); isSlice {
+				if _, isPtr := x.Type().Underlying().(*types.Pointer); isPtr {
+					c.assume(c.curItems, sNot(sEq(bv.T, "0")))
+					c.note("slices of pointers hold no nil elements (global discipline: assumed on element load, checked on element store / append / make)")
+				}
+			}
+		}
 	case token.NOT:
 		v := c.val(x.X)
 		c.bind(x, Val{T: sNot(v.T), S: SBool, GT: x.Type()})
@@ -742,7 +800,7 @@ func (c *FnCtx) sliceOp(x *ssa.Slice) {
 			c.assert(c.curItems, "slice", "slice", exprText(x.X)+"[:]", sAnd(sx("<=", "0", lo), sx("<=", lo, hi), sx("<=", hi, sx("slen", s.T))), x, nil, true)
 			c.note("slice expressions are checked against len, not cap (stricter than Go)")
 		}
-		c.bind(x, Val{T: sx("mk_slice", sx("sref", s.T), sx("+", sx("soff", s.T), lo), sx("-", hi, lo)), S: SSlice, GT: x.Type()})
+		c.bind(x, Val{T: sx("mk_slice", sx("sref", s.T), c.ix(sx("soff", s.T), lo), sx("-", hi, lo)), S: SSlice, GT: x.Type()})
 	case *types.Pointer:
 		at := t.Elem().Underlying().(*types.Array)
 		base := c.addrLoc(x.X, x)
@@ -820,12 +878,82 @@ func (c *FnCtx) ret(x *ssa.Return) {
 			if !clauseActive(cl, c.prop) {
 				continue
 			}
-			env := c.specEnvFor(c.cur, c.entry, results)
-			f := env.trBool(cl.E)
+			parts := c.V.DB.splitConj(cl.E, 0)
+			for pi, pe := range parts {
+				env := c.specEnvFor(c.cur, c.entry, results)
+				f := env.trGoal(pe)
+				c.flushFacts(env)
+				stem := fmt.Sprintf("ensures#%d", cl.Ord)
+				if len(parts) > 1 {
+					stem = fmt.Sprintf("ensures#%d.%d", cl.Ord, pi+1)
+				}
+				ob := c.assert(c.curItems, "ensures", stem, "", f, x, cl.Tags, false)
+				ob.Text = cl.Text
+			}
+		}
+	}
+	// frame clauses of a callback: proved per invocation (old = entry of the closure)
+	if c.fn.Parent() != nil && c.con != nil {
+		for _, cl := range c.con.Frames {
+			if !clauseActive(cl, c.prop) {
+				continue
+			}
+			env := c.specEnvFor(c.cur, c.entry, nil)
+			f := env.trGoal(cl.E)
 			c.flushFacts(env)
-			stem := fmt.Sprintf("ensures#%d", cl.Ord)
-			ob := c.assert(c.curItems, "ensures", stem, "", f, x, cl.Tags, false)
+			ob := c.assert(c.curItems, "ensures", fmt.Sprintf("frame#%d", cl.Ord), "", f, x, cl.Tags, len(cl.Tags) == 0)
 			ob.Text = cl.Text
+		}
+	}
+	// "each" clauses of an Iterate callback: established for this key, and stable
+	if c.fn.Parent() != nil && c.con != nil && len(c.con.Each) > 0 && len(c.fn.Params) > 0 {
+		k := c.env[c.fn.Params[0]].V
+		tidf := c.ufun("tid", []Sort{SIface}, SInt)
+		for i, cl := range c.con.Each {
+			if !clauseActive(cl, c.prop) {
+				continue
+			}
+			qn := c.con.EachVar[i]
+			env := c.specEnvFor(c.cur, c.entry, nil)
+			env.vars[qn] = Val{T: sx(tidf, k.T), S: SInt, GT: types.Typ[types.Int]}
+			f := env.trGoal(cl.E)
+			c.flushFacts(env)
+			ob := c.assert(c.curItems, "ensures", fmt.Sprintf("each#%d/established", cl.Ord), "", f, x, cl.Tags, false)
+			ob.Text = cl.Text
+			// stability: forall q :: old(P(q)) ==> P(q)
+			env2 := c.specEnvFor(c.cur, c.entry, nil)
+			env2.vars[qn] = Val{T: "q_" + qn, S: SInt, GT: types.Typ[types.Int]}
+			env2.bound[qn] = true
+			post := env2.trGoal(cl.E)
+			envOld := c.specEnvFor(c.entry, c.entry, nil)
+			envOld.vars[qn] = Val{T: "q_" + qn, S: SInt, GT: types.Typ[types.Int]}
+			envOld.bound[qn] = true
+			pre := envOld.trAssume(cl.E)
+			stab := fmt.Sprintf("(forall ((q_%s Int)) %s)", qn, sImp(pre, post))
+			ob2 := c.assert(c.curItems, "ensures", fmt.Sprintf("each#%d/stable", cl.Ord), "", stab, x, cl.Tags, false)
+			ob2.Text = cl.Text
+		}
+	}
+	// a closure re-establishes its own preconditions (they act as invariants of the callback loop)
+	if c.fn.Parent() != nil && c.con != nil {
+		for _, r := range c.con.Requires {
+			env := c.specEnvFor(c.cur, c.entry, nil)
+			ok := true
+			var f string
+			func() {
+				defer func() {
+					if rec := recover(); rec != nil {
+						ok = false
+					}
+				}()
+				f = env.trGoal(r.E)
+			}()
+			if !ok {
+				continue
+			}
+			c.flushFacts(env)
+			ob := c.assert(c.curItems, "ensures", fmt.Sprintf("requires-preserved#%d", r.Ord), "", f, x, r.Tags, len(r.Tags) == 0)
+			ob.Text = r.Text
 		}
 	}
 	_ = strings.Join
